@@ -234,15 +234,44 @@ static void do_hex(char *line)
 	free(in);
 }
 
+/* Per-case limit on the CPU time of this process (not wall time: a loaded machine must not turn a slow case into a
+ * hang): a reader that spins on one input prints TIMEOUT in place of the case's line and the harness exits 3, which
+ * check.py:run_batch records as a `timeout` incident for that case and restarts behind it. */
+#include <signal.h>
+#include <sys/time.h>
+#include <unistd.h>
+#define CASE_CPU_SECONDS 20
+
+static void on_cpu_limit(int sig)
+{
+	(void)sig;
+	if (write(1, "TIMEOUT\n", 8) < 0) {}
+	_exit(3);
+}
+
+static void case_timer(int secs)
+{
+	struct itimerval it;
+	memset(&it, 0, sizeof(it));
+	it.it_value.tv_sec = secs;
+	setitimer(ITIMER_PROF, &it, NULL);
+}
+
 int main(int argc, char **argv)
 {
 	static char line[1 << 22];
 	const char *mode = argc > 1 ? argv[1] : "tar";
+	struct sigaction sa;
+
+	memset(&sa, 0, sizeof(sa));
+	sa.sa_handler = on_cpu_limit;
+	sigaction(SIGPROF, &sa, NULL);
 
 	while (fgets(line, sizeof(line), stdin)) {
 		size_t n = strlen(line);
 		while (n > 0 && (line[n - 1] == '\n' || line[n - 1] == '\r'))
 			line[--n] = 0;
+		case_timer(CASE_CPU_SECONDS);
 		if (!strcmp(mode, "tar")) do_tar(line);
 		else if (!strcmp(mode, "num")) do_num(line);
 		else if (!strcmp(mode, "pint")) do_pint(line);
@@ -251,6 +280,7 @@ int main(int argc, char **argv)
 		else if (!strcmp(mode, "hex")) do_hex(line);
 		else { puts("BAD MODE"); return 2; }
 		fflush(stdout);
+		case_timer(0);
 	}
 	return 0;
 }
